@@ -1,14 +1,17 @@
 #!/bin/sh
 # refcheck.sh DIFF [PROP...] : apply a (behaviour-preserving) patch to a scratch copy of /repo and run the checker
-# for the given properties (default: all 18). Every reported line is a false alarm candidate. Authoring aid.
+# for the given properties (default: all 18, one load). Every reported line is a false alarm candidate. Authoring aid.
 P=$(realpath "$1"); shift
 PROPS="$@"
-[ -z "$PROPS" ] && PROPS="C01 C02 C03 C04 C05 C06 C07 C08 C09 C10 C11 C12 C13 C14 C15 C16 C17 C18"
 T=$(mktemp -d)
 trap 'rm -rf "$T"' EXIT
 rsync -a --exclude .git /repo/ "$T/repo/"
 (cd "$T/repo" && git init -q . 2>/dev/null && git apply "$P") || { echo "PATCH DOES NOT APPLY: $P"; exit 1; }
 mkdir -p "$T/v"; cp /verif/known_findings.json "$T/v/"
-for prop in $PROPS; do
-  /verif/bin/gonnxcheck -repo "$T/repo" -property "$prop" -tier quick -evidence "$T/ev.json" -verif "$T/v" | grep -E "^(violated|undischarged|UNDECIDED)" | sed "s/^/$prop /" | cut -c1-300
-done
+if [ -z "$PROPS" ]; then
+  ${GONNXCHECK:-/verif/bin/gonnxcheck} -repo "$T/repo" -property all -tier quick -verif "$T/v" | cut -c1-300
+else
+  for prop in $PROPS; do
+    ${GONNXCHECK:-/verif/bin/gonnxcheck} -repo "$T/repo" -property "$prop" -tier quick -evidence "$T/ev.json" -verif "$T/v" | grep -E "^(violated|undischarged|UNDECIDED)" | sed "s/^/$prop /" | cut -c1-300
+  done
+fi
